@@ -126,7 +126,7 @@ def evaluate(fam, m):
     repo = os.path.join(work, "repo")
     res = dict(m)
     res.pop("newline", None)
-    env = dict(os.environ, GOFLAGS="-mod=mod", GOPROXY="off", GOSUMDB="off")
+    env = dict(os.environ, GOFLAGS="-mod=mod")
     try:
         sh("git -C /repo worktree add -q --detach %s HEAD" % repo)
         apply(repo, m)
